@@ -107,7 +107,7 @@ def exhaustive_sequences(maxlen):
 def macro_mod_case(cid, rng):
     """An entraited module stamped out by macro_rules!: whole items, fn bodies, visibilities and names arrive as
     fragments (None-delimited groups) between ordinary visible fns."""
-    frag_items = ["struct S {}", "pub struct U;", "fn private_in_fragment() {}", "impl S0 { pub fn inside(&self) {} }", "pub const K: u8 = 1;",
+    frag_items = ["struct Marker;", "use ::core::fmt::Debug;", "const X: u32 = 1;", "static Y: u8 = 2;", "type Al = u8;", "struct S {}", "pub struct U;", "fn private_in_fragment() {}", "impl S0 { pub fn inside(&self) {} }", "pub const K: u8 = 1;",
                   "pub fn visible_in_fragment<D>(deps: &D) {}"]
     matcher, args, body, truth = [], [], [], []
     n = rng.randint(2, 6)
